@@ -149,6 +149,12 @@ def const_value(cx, t, env=None, depth=0):
             tt = cx.sx.term(lk[1], {}, t[1])
             return const_value(cx, tt, env, depth + 1)
         raise ValueError('not a constant: %s' % (t,))
+    if k == 'ext' and t[1] in ('sys.float_info.epsilon',):
+        import sys
+        return sys.float_info.epsilon
+    if k == 'attr' and t[2] == 'eps' and t[1][0] == 'call' and term_name(t[1][1]).endswith('finfo'):
+        import sys
+        return sys.float_info.epsilon
     if k == 'un' and t[1] == '-':
         return -const_value(cx, t[2], env, depth)
     if k == 'not':
